@@ -155,6 +155,27 @@ def build():
     fb = fn_body(ps, "as_flat_slice", after="ToName for ParsedName")
     one(r"if\s+self\.compressed\s*\{\s*None\s*\}\s*else\s*\{\s*Some\(\s*&self\.octets\.as_ref\(\)\s*\[self\.pos\.\.self\.pos\s*\+\s*usize::from\(self\.name_len\)\],?\s*\)\s*\}", fb, "ParsedName::as_flat_slice")
     defs.append(("parsed_flat_iff_uncompressed", "bool", "true"))
+    # parent / split_first: the `compressed` flag must survive unchanged (a
+    # suffix of a compressed name may itself still contain pointers)
+    keeps = []
+    for fn in ("split_first", "parent"):
+        pb = fn_body(ps, fn, after="impl<Octs: AsRef<[u8]>> ParsedName<Octs>")
+        one(r"LabelType::Compressed\(pos\)\s*=>\s*\{\s*parser\.seek\(pos\)\.unwrap\(\);\s*\}", pb, "%s follows pointers" % fn)
+        one(r"LabelType::Normal\(label_len\)\s*=>\s*break\s+label_len\s*\+\s*1", pb, "%s label length" % fn)
+        asg = re.findall(r"self\.compressed\s*=\s*([^;]+);", pb)
+        if not asg:
+            keeps.append(True)
+        elif all(a.strip() == "false" for a in asg):
+            keeps.append(False)
+        else:
+            raise GenError("%s assigns self.compressed = %r" % (fn, asg))
+        if "compressed" in pb and not asg:
+            raise GenError("%s mentions `compressed` in an unrecognised way" % fn)
+    defs.append(("split_first_keeps_compressed_flag", "bool", bool_(keeps[0])))
+    defs.append(("parent_keeps_compressed_flag", "bool", bool_(keeps[1])))
+    sb_ = fn_body(ps, "next", after="Iterator for ParsedSuffixIter")
+    one(r"let\s+res\s*=\s*name\.deref_octets\(\);\s*if\s+!name\.parent\(\)\s*\{\s*self\.name\s*=\s*None;?\s*\}\s*Some\(res\)", sb_, "ParsedSuffixIter::next is parent()")
+    defs.append(("suffix_iter_is_parent", "bool", "true"))
     ch = strip_comments(read("src/base/name/chain.rs"))
     if re.search(r"fn\s+as_flat_slice", ch):
         raise GenError("Chain gained as_flat_slice")
